@@ -21,6 +21,12 @@ class VariableBoundMaxPropagator(VariableBoundPropagator):
             return False
         # Obtain the max value from the
         max_v = self.max()
+        
+        if max_v < self.target.domain.range_l[0][0]:
+            # No value of the domain is at or below the limit: the domain
+            # becomes empty (rather than an inverted range)
+            self.target.domain.range_l = []
+            return True
   
         range_l = self.target.domain.range_l
         i=len(range_l)-1
